@@ -30,6 +30,9 @@ func reg(pkg, fn string, e Entry) { Registry["verif/harness/"+pkg+"."+fn] = e }
 func init() {
 	reg("c01", "Step", func(a []int64) { c01.Step(int(a[0]), int(a[1]), int(a[2]), int(a[3])) })
 	reg("asmh7", "CloneAppendLemma", func(a []int64) { asmh7.CloneAppendLemma(int(a[0])) })
+	reg("c02", "Trigger", func(a []int64) { c02.Trigger() })
+	reg("c02", "Reset", func(a []int64) { c02.Reset() })
+	reg("c02", "Fresh", func(a []int64) { c02.Fresh(int(a[0])) })
 	reg("c02", "Copy", func(a []int64) { c02.Copy(int(a[0]), int(a[1])) })
 	reg("c02", "Lockstep", func(a []int64) { c02.Lockstep(int(a[0]), int(a[1])) })
 	reg("c06", "Program", func(a []int64) { c06.Program(a[0], int(a[1]), int(a[2]), int(a[3])) })
@@ -56,6 +59,7 @@ func init() {
 	reg("c05", "BusPages", func(a []int64) { c05.BusPages(int(a[0])) })
 	reg("c05", "PakPages", func(a []int64) { c05.PakPages(int(a[0])) })
 	reg("c13", "Route", func(a []int64) { c13.Route(int(a[0])) })
+	reg("c13", "Devices", func(a []int64) { c13.Devices() })
 	reg("c13", "Route24", func(a []int64) { c13.Route24(int(a[0])) })
 	reg("c13", "Misaligned", func(a []int64) { c13.Misaligned(int(a[0]), int(a[1]), int(a[2])) })
 	reg("c13", "Dump", func(a []int64) { c13.Dump(int(a[0]), int(a[1]), int(a[2])) })
